@@ -21,6 +21,7 @@
   Assumed of the pool (proved on its own model in C29): every task runs exactly once, `wait()` returns only
   when all the tasks are done, each future gets the result of its own task.
 -/
+import Mathlib.Data.List.Nodup
 import TfelVerif.C52.Lemmas
 
 namespace TfelVerif.C52
@@ -88,8 +89,7 @@ theorem log_blocks_perm (es : List Ev) (s : State)
       rw [hti] at h2
       refine ⟨t, rfl, ?_⟩
       intro he
-      rw [he] at h2
-      cases h2
+      simp [he] at h2
 
 /-- **No interleaving, at any time.** In every reachable state the log is made of complete blocks
 followed by a prefix of the block of the task holding `log_synchronization` (nothing when it is free). -/
@@ -108,7 +108,7 @@ theorem log_never_interleaved (es : List Ev) (s : State)
 when some task returned `false` or let an exception escape. -/
 theorem exit_status (es : List Ev) (s : State) (b : Bool)
     (h : (sys ts).run (sys ts).init es = some s) (hb : s.status = some b) :
-    b = true ↔ ∃ i t, ts[i]? = some t ∧ t.out ≠ .ok := by
+    b = true ↔ ∃ (i : Nat) (t : Task), ts[i]? = some t ∧ t.out ≠ .ok := by
   obtain ⟨_, ho, hm⟩ := reachable_inv ts es s h
   obtain ⟨hw, hfold⟩ := hm.status b hb
   have hfut : ∀ i, i < ts.length → ∃ t, ts[i]? = some t ∧ s.fut i = some t.out :=
